@@ -12,7 +12,10 @@ open C05_model
 
 let rec pos_of_int i = if i = 1 then XH else if i land 1 = 0 then XO (pos_of_int (i lsr 1)) else XI (pos_of_int (i lsr 1))
 let n_of_int i = if i <= 0 then N0 else Npos (pos_of_int i)
-let rec int_of_pos = function XH -> 1 | XO p -> 2 * int_of_pos p | XI p -> 2 * int_of_pos p + 1
+(* saturating: numbers of 61 bits and more become max_int / 4 (only used for sizes and bounds) *)
+let rec pos_bits = function XH -> 1 | XO p | XI p -> 1 + pos_bits p
+let rec int_of_pos_raw = function XH -> 1 | XO p -> 2 * int_of_pos_raw p | XI p -> 2 * int_of_pos_raw p + 1
+let int_of_pos p = if pos_bits p > 60 then max_int / 4 else int_of_pos_raw p
 let int_of_n = function N0 -> 0 | Npos p -> int_of_pos p
 let rec nat_of_int i = if i <= 0 then O else S (nat_of_int (i - 1))
 let rec int_of_nat = function O -> 0 | S k -> 1 + int_of_nat k
@@ -205,7 +208,7 @@ and gen_refined (p : pred) (s' : schema) : gval =
       attempt 0
 
 let find_schema id =
-  match List.find_opt (fun (i, _) -> int_of_n i = id) chain_schema_table with
+  match List.find_opt (fun (i, _) -> int_of_n i = id) (chain_schema_table @ gen_schema_table) with
   | Some (_, s) -> s
   | None -> failwith (Printf.sprintf "unknown schema id %d" id)
 
